@@ -121,13 +121,20 @@ def _facts_one(job):
     out = os.path.join(cdir, tag + '.json')
     if os.path.exists(out):
         return out
-    ll = os.path.join(cdir, tag + '.ll')
-    compile_ir(src, flags, mode, ll, extra)
-    tmp = out + '.tmp%d' % os.getpid()
-    r = subprocess.run([PXIR, ll, tmp] + (['--loops'] if loops else []), capture_output=True, text=True)
-    if r.returncode != 0:
-        raise AnalysisBroken('pxir failed on %s: %s' % (name, r.stderr[-2000:]))
-    os.replace(tmp, out)
+    # the IR file is private to this process: two checks of identical trees (same cache directory) must not write the same file
+    ll = os.path.join(cdir, tag + '.%d.ll' % os.getpid())
+    try:
+        compile_ir(src, flags, mode, ll, extra)
+        tmp = out + '.tmp%d' % os.getpid()
+        r = subprocess.run([PXIR, ll, tmp] + (['--loops'] if loops else []), capture_output=True, text=True)
+        if r.returncode != 0:
+            raise AnalysisBroken('pxir failed on %s (exit %d): %s' % (name, r.returncode, r.stderr[-2000:]))
+        os.replace(tmp, out)
+    finally:
+        try:
+            os.unlink(ll)
+        except OSError:
+            pass
     return out
 
 
@@ -155,12 +162,19 @@ def shim_facts(shim_path, mode='O', flags=(), extra=(), incdirs=(), loops=False)
     base = os.path.join(cdir, 'shim-' + os.path.basename(shim_path) + '.' + key)
     out = base + '.json'
     if not os.path.exists(out):
-        compile_ir(shim_path, flags, mode, base + '.ll', extra, incdirs)
-        tmp = out + '.tmp%d' % os.getpid()
-        r = subprocess.run([PXIR, base + '.ll', tmp] + (['--loops'] if loops else []), capture_output=True, text=True)
-        if r.returncode != 0:
-            raise AnalysisBroken('pxir failed on shim %s: %s' % (shim_path, r.stderr[-2000:]))
-        os.replace(tmp, out)
+        ll = base + '.%d.ll' % os.getpid()
+        try:
+            compile_ir(shim_path, flags, mode, ll, extra, incdirs)
+            tmp = out + '.tmp%d' % os.getpid()
+            r = subprocess.run([PXIR, ll, tmp] + (['--loops'] if loops else []), capture_output=True, text=True)
+            if r.returncode != 0:
+                raise AnalysisBroken('pxir failed on shim %s (exit %d): %s' % (shim_path, r.returncode, r.stderr[-2000:]))
+            os.replace(tmp, out)
+        finally:
+            try:
+                os.unlink(ll)
+            except OSError:
+                pass
     return out
 
 
